@@ -12,18 +12,12 @@ namespace Juniper.Proofs.ParWrap
 open Juniper.Gen Juniper.Model.ParDo Juniper.Model.ParWrap Juniper.Proofs.ParDo
 
 /-- `wrapper_sound hw` proves `w.Sound false` from `hw : w = mapWrapper` resp. `w.Sound true` from
-`hw : w = mapContextWrapper` by evaluating the regenerated definitions, `under` the wrapper's control
-skeleton. As for `pardo_sound` there is no closed lemma in `Proofs/`: the property theorems run it. -/
+`hw : w = mapContextWrapper` by evaluating the regenerated definitions, the wrapper's control skeleton
+(`skeleton`) among them. As for `pardo_sound` there is no closed lemma in `Proofs/`: the property theorems run it. -/
 syntax "wrapper_sound " term : tactic
 macro_rules
   | `(tactic| wrapper_sound $hw:term) =>
-    `(tactic| (
-      rw [$hw:term]
-      first
-      | exact Juniper.Proofs.SkeletonPar.under Juniper.Proofs.SkeletonPar.pskelMap_tie
-          (by constructor <;> first | decide | (intros; rfl))
-      | exact Juniper.Proofs.SkeletonPar.under Juniper.Proofs.SkeletonPar.pskelMapContext_tie
-          (by constructor <;> first | decide | (intros; rfl))))
+    `(tactic| (rw [$hw:term]; constructor <;> pardo_tie_field))
 
 variable {α : Type}
 
